@@ -61,8 +61,8 @@ ASSUMPTIONS = [
     'repair looks at (max(checkpoints)+1000, 999 without checkpoints); no damage inside check-pointed chunks and no fork below a checkpoint',
     'the chain is judged modulo all-zero placeholders of check-pointed chunks that were not downloaded yet; while such a '
     'placeholder exists an unaligned cut makes open() run repair() from height 0, which meets the placeholder instead of '
-    'the genesis header and truncates the whole file: genuine defect recorded as KNOWN finding C07-unaligned-cut-over-placeholder '
-    '(site unaligned_cut_over_placeholder=True); every other reopen violation is still reported',
+    'the genesis header and truncated the whole file: genuine defect, repaired in /repo (known_findings.json '
+    'C07-unaligned-cut-over-placeholder, site unaligned_cut_over_placeholder=True); unaligned cuts over placeholders are generated',
 ]
 EXPECTED_PROBES = [
     'connect_call', 'valid_ext_stored', 'fork_stored', 'fork_shorter_stale_tail', 'invalid_offered',
